@@ -441,6 +441,60 @@ def fresh_process_cases():
         shutil.rmtree(tmp, ignore_errors=True)
 
 
+def refused_midway_cases():
+    """an upload that is refused after it has already written rows -- a supplementary column of a type the store cannot hold, met
+    after the auto-inserted material, the isotherm row and the standard columns -- changes nothing: the file holds what it held,
+    the material can be uploaded afterwards, the isotherm cannot be deleted (it was never stored)"""
+    import pandas
+    import pygaps
+    import pygaps.parsing.sqlite as S
+    from pgv.checks import c09
+    pygaps.logger.disabled = True
+    tmp = tempfile.mkdtemp(prefix='pgv-c08r-')
+    reg0 = c09._registries()
+    try:
+        for label, column in (('boolean_column', [True, False, True]), ('object_column', [{'a': 1}, {'a': 2}, {'a': 3}])):
+            db = os.path.join(tmp, f'{label}.db')
+            shutil.copyfile(empty_template(tmp), db)
+            c09._restore(reg0)
+            before = _observe(S, db)
+            df = pandas.DataFrame({'pressure': [1.0, 2.0, 3.0], 'loading': [1.0, 2.0, 3.0], 'flag': column})
+            probs = []
+            try:
+                iso = pygaps.PointIsotherm(isotherm_data=df, pressure_key='pressure', loading_key='loading', material={'name': 'pgv_rm_mat', 'batch': 'b1'},
+                                           adsorbate='nitrogen', temperature=77.355)
+                try:
+                    S.isotherm_to_db(iso, db_path=db, verbose=False)
+                    outcome = 'accepted'
+                except Exception as exc:
+                    outcome = f"refused ({type(exc).__name__})"
+                after = _observe(S, db)
+                if outcome == 'accepted':
+                    got = S.isotherms_from_db(db_path=db, verbose=False)
+                    if not (len(got) == 1 and list(got[0].data_raw['flag']) == list(df['flag'])):
+                        probs.append('accepted, but the column did not come back')
+                elif after != before:
+                    what = [n for n, a_, b_ in zip(('adsorbates', 'materials', 'isotherms', 'adsorbate property types', 'material property types', 'orphan rows'), after, before) if a_ != b_]
+                    probs.append(f"{outcome}, yet the file changed: {what}")
+                if outcome != 'accepted':
+                    try:
+                        S.material_to_db(pygaps.Material('pgv_rm_mat', batch='b1'), db_path=db, verbose=False)
+                    except Exception as exc:
+                        probs.append(f"the material cannot be uploaded afterwards: {type(exc).__name__}: {exc}"[:120])
+            except Exception as exc:
+                probs.append(f"{type(exc).__name__}: {exc}"[:160])
+            yield {'name': f"refused_after_partial_writes|{label}", 'ok': not probs, 'detail': '; '.join(probs), 'ops': None}
+    finally:
+        c09._restore(reg0)
+        shutil.rmtree(tmp, ignore_errors=True)
+
+
+@replayer('c08.refused_midway')
+def _refused_midway(spec, model):
+    bad = [r for r in refused_midway_cases() if not r['ok']]
+    return {'confirmed': bool(bad), 'observed': [(b['name'], b['detail']) for b in bad], 'expected': 'a refused upload leaves the file as it was'}
+
+
 @replayer('c08.fresh')
 def _fresh(spec, model):
     bad = [r for r in fresh_process_cases() if not r['ok']]
@@ -471,6 +525,7 @@ def history_cases(seed, thorough=False):
     yield from value_type_cases()
     yield positional_path_case()
     yield from fresh_process_cases()
+    yield from refused_midway_cases()
     hs, two = histories(seed, thorough)
     items = [(1, h) for h in hs] + [(2, h) for h in two]
     res, crashes = par.pmap(run_chunk, par.chunks(items, 32))
